@@ -324,12 +324,20 @@ def stepPinned (c : Cache K) : Op K → Cache K × Out K
       let st := pivotFrom A r.1
       (cachePut r.2 A.length st.p, (luSolve st.mp b).map (fun x => [x]))
 
-/-! ### the inputs the implementation accepts (everything else makes it raise `ValueError` / `IndexError`,
-    or - `matrix_pivot` on rows longer than `n` - is outside what the model mirrors)
+/-! ### inputs the implementation accepts: SUFFICIENT shape guards
+
+When a guard below is `true` the real routine gets past all its non-arithmetic checks (it can only raise
+`ZeroDivisionError` on a zero pivot) – the guards are never too weak (enumerated against the real code on all
+matrices / right-hand sides with ≤ 3 rows of length ≤ 3).  They are NOT necessary: on a few degenerate shapes the
+guard is `false` although the code returns (and the model returns the same value) – a right-hand side of `lu_factor`
+whose later rows are longer (`lu_factor([[10,1],[1,10]], [[1],[2,3]])`), right-hand sides without columns
+(`lu_solve([[1]], [[],[]])`, `matrix_multiply([[1],[]], [[]])`), `matrix_pivot` on some ragged inputs
+(`[[5],[1,2]]`); `matrix_pivot` on rows longer than `n` is outside what the model mirrors.  The generators do not
+produce these shapes; nothing is claimed about them.
 
 These predicates are NOT tested inside `luSolve`, `matrixPivot`, … (which pad missing entries with `0`
 and would "return" something on a non-square input); they are the explicit hypotheses of the C16
-theorems, and the driver answers `ERR` exactly when they fail (`Drv.opOk`, proved equal in `Props/C16`). -/
+theorems, and the driver answers `ERR` exactly when they fail (`Drv.opOk`, the same tests written out again). -/
 
 /-- every row has at least `c` entries (Python reads `row[j]` for `j < c`) -/
 def rowsAtLeast (A : List (List K)) (c : Nat) : Bool := A.all (fun r => decide (c ≤ r.length))
@@ -358,8 +366,9 @@ def matrixMultiplyOk (a b : List (List K)) : Bool :=
 def matrixVectorOk (a : List (List K)) (v : List K) : Bool :=
   !a.isEmpty && !v.isEmpty && (a.headD []).length == v.length && rowsAtLeast a v.length
 
-/-- the guard of a public call: the call raises for a reason other than a zero pivot (or, for `matrix_pivot`
-    with rows longer than `n`, exchanges only the first `n` entries, which the model does not mirror) iff this is `false` -/
+/-- the guard of a public call: if this is `true` the call does not raise for a reason other than a zero pivot
+    (sufficient, not necessary – see the section header; for `matrix_pivot` with rows longer than `n` the code
+    exchanges only the first `n` entries, which the model does not mirror, and the guard is `false`) -/
 def admissible : Op K → Bool
   | .identity _ => true
   | .pivot m => isSquare m
